@@ -1827,6 +1827,122 @@ theorem c14_rest_get_kind_fits_field (g : Sig) (method : String) (mn mx : Nat) (
             subst h
             simp [hg]
 
+/-! ### `SendProtobufParallelWithDecoder` with `QuitError`: `done` is closed once -/
+
+/-- **the first error and an accepted reply may come at the same moment; `done` is closed once**
+(found through seed C14r5-A, reproduced on the unchanged tree by
+`notes/probes/onet_c14_parallel_quit_double_close_probe_test.go.txt`, repaired): for every
+interleaving of the accepting routines and the caller's error handling there is no close of a closed
+channel, and a routine inside its critical section has always found `done` open. -/
+theorem c14_parallel_quit_closes_done_once (sched : List QAct) :
+    (qRun true {} sched).panic = false := by
+  have inv : ∀ (sched : List QAct) (p : QPar), p.panic = false → (p.inCS.isSome = true → p.done = false) →
+      (qRun true p sched).panic = false := by
+    intro sched
+    induction sched with
+    | nil => intro p h _; exact h
+    | cons a as ih =>
+      intro p hp hcs
+      simp only [qRun]
+      apply ih
+      · cases a with
+        | enter i => simp only [qStep]; split <;> simp [hp]
+        | leave =>
+          simp only [qStep]
+          cases hc : p.inCS with
+          | none => simp [hp]
+          | some i =>
+            have hd := hcs (by simp [hc])
+            simp [hp, hd]
+        | quit =>
+          simp only [qStep, hp, Bool.false_or]
+          split
+          · exact hp
+          · simp only [if_true]; split <;> simp [hp]
+      · cases a with
+        | enter i =>
+          simp only [qStep]
+          split
+          · exact hcs
+          · rename_i hn
+            simp only [Bool.or_eq_true, not_or] at hn
+            intro _; simpa using hn.2
+        | leave =>
+          simp only [qStep]
+          cases hc : p.inCS with
+          | none => simpa [hc] using hcs
+          | some i =>
+            have hd := hcs (by simp [hc])
+            simp [hp, hd]
+        | quit =>
+          simp only [qStep, hp, Bool.false_or]
+          split
+          · exact hcs
+          · simp only [if_true]
+            split
+            · exact hcs
+            · rename_i hn; intro h; simp at hn; simp [hn] at h
+  exact inv sched {} rfl (by simp)
+
+/-- the bare `close(done)` of the code before: both orders end the process — the caller closes
+second (panic in the caller, websocket_client.go:411 of 37e8160), or the accepting routine does -/
+theorem c14_parallel_quit_unguarded_double_close :
+    (qRun false {} [.enter 1, .leave, .quit]).panic = true ∧
+    (qRun false {} [.enter 1, .quit, .leave]).panic = true ∧
+    (qRun true {} [.enter 1, .leave, .quit]) = { done := true, winner := some 1, quit := true } ∧
+    (qRun true {} [.enter 1, .quit, .leave, .quit]) = { done := true, winner := some 1, quit := true } := by decide
+
+/-! ### `Client.SendToAll`: the reply list is indexed like the roster -/
+
+theorem sendToAll_nil {σ α β : Type} (c : Bool) (send : σ → α → σ × Option β) (s : σ) :
+    sendToAll c send s [] = (s, [], 0) := rfl
+
+theorem sendToAll_cons_false {σ α β : Type} (send : σ → α → σ × Option β) (s : σ) (e : α) (es : List α) :
+    (sendToAll false send s (e :: es)).2.1 = (send s e).2 :: (sendToAll false send (send s e).1 es).2.1 ∧
+    (sendToAll false send s (e :: es)).2.2 =
+      (sendToAll false send (send s e).1 es).2.2 + (if (send s e).2.isSome then 0 else 1) := by
+  simp only [sendToAll]
+  cases h : (send s e).2 <;> simp
+
+/-- **every server's reply sits at that server's place** (seed C14r5-B): for every client state,
+roster and behaviour of the single `Send`s (failures anywhere included) the list `SendToAll` returns
+is as long as the roster, its entry `i` is exactly what the `Send` to roster entry `i` returned —
+nothing where it failed — and an error is returned iff some `Send` failed. -/
+theorem c14_send_to_all_positional {σ α β : Type} (send : σ → α → σ × Option β) (s : σ) (roster : List α) :
+    let res := sendToAll false send s roster
+    res.2.1.length = roster.length ∧
+    (∀ (i : Nat) (e : α), roster[i]? = some e → res.2.1[i]? = some (send (stateAt send s roster i) e).2) ∧
+    (res.2.2 = 0 ↔ ∀ r ∈ res.2.1, r.isSome = true) := by
+  induction roster generalizing s with
+  | nil => simp [sendToAll_nil]
+  | cons e es ih =>
+    obtain ⟨h1, h2⟩ := sendToAll_cons_false send s e es
+    obtain ⟨i1, i2, i3⟩ := ih (send s e).1
+    refine ⟨?_, ?_, ?_⟩
+    · simp only [h1, List.length_cons, i1]
+    · intro i x hx
+      cases i with
+      | zero =>
+        simp only [List.getElem?_cons_zero, Option.some.injEq] at hx
+        subst hx
+        simp [h1, stateAt]
+      | succ j =>
+        simp only [List.getElem?_cons_succ] at hx
+        simp only [h1, List.getElem?_cons_succ, stateAt]
+        exact i2 j x hx
+    · simp only [h1, h2, List.mem_cons, forall_eq_or_imp]
+      cases hs : (send s e).2 with
+      | none => simp
+      | some b => simpa using i3
+
+/-- … and the variant that appends only the successful replies does not: with the middle server of
+three failing, the third server's reply is handed out as the second's -/
+theorem c14_send_to_all_compact_shifts :
+    let send := fun (st : Unit) (n : Nat) => (st, if n = 1 then none else some n)
+    (sendToAll true send () [0, 1, 2]).2.1 = [some 0, some 2] ∧
+    (sendToAll false send () [0, 1, 2]).2.1 = [some 0, none, some 2] ∧
+    (sendToAll false send () [0, 1, 2]).2.2 = 1 := by decide
+
 /-! ### the code regions the model stands for
 Regenerated from /repo's source on every run (`harness/cmd/astfacts` → `OnetVerif/Shapes.lean`): the
 calls that matter for synchronisation and data flow, the lock regions and (for decision logic) the
@@ -1933,7 +2049,15 @@ theorem c14_shape_client_Client_SendProtobufParallelWithDecoder :
    ["protobuf.Encode", "opt.GetList", "recv:done", "recv:nodesChan", "c.Send", "send:errChan",
      "decoding.Lock", "recv:done", "decoder", "send:errChan", "send:decodedChan", "close:done",
      "decoding.Unlock", "go{", "contactNode", "}", "recv:decodedChan", "recv:errChan",
-     "opt.Quit", "close:done"] := rfl
+     "opt.Quit", "decoding.Lock", "recv:done", "close:done", "decoding.Unlock"] := rfl
+
+theorem c14_shape_client_Client_SendToAll :
+    Shapes.websocket_client_Client_SendToAll =
+   ["assign:msgs:=make(conv,len(dst.List))", "range:i,e:=dst.List{", "c.Send",
+     "assign:msgs[i],err=c.Send(e,path,buf)", "if:(err!=nil)",
+     "assign:errstrs=append(errstrs,fmt.Sprint(e.String(),err.Error()))", "}",
+     "if:(len(errstrs)>0)", "assign:err=xerrors.New(strings.Join(errstrs,\"\"))",
+     "return:msgs,err"] := rfl
 
 
 end C14
